@@ -422,6 +422,34 @@ func RunCheck(opts *CheckOpts) int {
 	if nObl == 0 && exit == 0 {
 		return fail("no obligations generated")
 	}
+	// bounded stand-ins (executing the real code on a finite space; never counted as proved)
+	var boundedEv []any
+	if opts.Only == "" {
+		for _, br := range runBounded(opts) {
+			ev := map[string]any{"name": br.Spec.Name, "bounded": true, "bound": br.Env, "what": br.Spec.What, "result": br.Summary, "seconds": br.Seconds}
+			if br.Err != "" {
+				fmt.Printf("BROKEN property=%s reason=bounded stand-in %s: %s\n", prop, br.Spec.Name, br.Err)
+				if exit == 0 {
+					exit = 2
+				}
+				ev["error"] = br.Err
+			} else if len(br.Fails) > 0 {
+				os.MkdirAll(replayDir, 0o755)
+				path := filepath.Join(replayDir, "bounded-"+sanitize(br.Spec.Name)+".json")
+				writeJSON(path, map[string]any{"property": prop, "obligation": "bounded:" + br.Spec.Name, "kind": "bounded-standin", "what": br.Spec.What, "bound": br.Env, "failing_inputs": br.Fails, "summary": br.Summary, "replay": "the failing inputs were produced by executing the real code (go test -overlay " + br.Spec.File + ")"})
+				fmt.Printf("FAILED bounded:%s %s first: %s\n", br.Spec.Name, br.Summary, br.Fails[0])
+				fmt.Printf("VIOLATION property=%s replay=%s\n", prop, path)
+				if exit != 2 {
+					exit = 1
+				}
+				ev["failing_inputs"] = br.Fails
+			} else {
+				fmt.Printf("bounded stand-in %s: %s (%.1fs)\n", br.Spec.Name, br.Summary, br.Seconds)
+			}
+			boundedEv = append(boundedEv, ev)
+		}
+	}
+	boundedGlobal = boundedEv
 	fmt.Printf("property %s: %d functions under contract, %d obligations, %d discharged, %d known findings, %.1fs\n", prop, len(reports), nObl, nDis, len(knownLines), time.Since(start).Seconds())
 
 	if !opts.NoEvidence {
@@ -605,7 +633,7 @@ func writeEvidence(opts *CheckOpts, prog *Program, reports []*FnReport, results 
 			"solver_ms_max":            maxMs,
 			"known_findings_reported":  knownLines,
 			"samples":                  samples,
-			"bounded_standins":         []string{},
+			"bounded_standins":         boundedOrEmpty(),
 		},
 		Assumptions: assumptions,
 		WallS:       wall,
@@ -681,4 +709,13 @@ func RunReplayFile(path, verifDir, repoDir string) int {
 		return 1
 	}
 	return 0
+}
+
+var boundedGlobal []any
+
+func boundedOrEmpty() []any {
+	if boundedGlobal == nil {
+		return []any{}
+	}
+	return boundedGlobal
 }
